@@ -70,4 +70,74 @@ theorem rebound_visible_later (g : Graph) (b : BId) (n k : NodeId) (hreg : (g.no
     (hk : k ∈ finishNodes g [b]) (hp : ClearPath g (blockedOf g [b]) n k) (hv : Expl g k [b]) : Expl g n [b] :=
   (visible_away_iff g b n hreg).2 ⟨k, hk, hp, hv⟩
 
+theorem mem_ssInsert_self (addr : BId → Nat) (s : List BId) : ∀ (l : List (List BId)), s ∈ ssInsert addr s l
+  | [] => by simp [ssInsert]
+  | t :: ts => by
+    unfold ssInsert
+    split
+    · simp
+    · split
+      · rename_i h; simp [h]
+      · exact List.mem_cons_of_mem _ (mem_ssInsert_self addr s ts)
+
+theorem ofList_single (b : BId) : ofList [b] = [b] := by simp [ofList, sunion, sinsert]
+
+theorem find_map_node (l : List Origin) (k : NodeId) (f : Origin → Origin) (hf : ∀ o, (f o).node = o.node) :
+    (l.map f).find? (fun o => o.node == k) = (l.find? (fun o => o.node == k)).map f := by
+  induction l with
+  | nil => rfl
+  | cons o r ih =>
+    simp only [List.map_cons, List.find?_cons, hf]
+    cases h : (o.node == k) <;> simp [ih]
+
+/-- `Binding::AddOrigin(k, {b})` on `b` itself: afterwards `b` has an origin at `k` one of whose source sets is `{b}`,
+and it is registered at `k` -/
+theorem addOriginSS_self (g : Graph) (hwf : g.WF) (b : BId) (k : NodeId) (hb : b < g.bindings.length)
+    (hk : k < g.nodes.length) :
+    ∃ ob, (g.addOriginSS b k [b]).findOrigin b k = some ob ∧ [b] ∈ ob.sourceSets ∧
+      ((g.addOriginSS b k [b]).node k).bindings.contains b = true := by
+  cases hfo : (g.binding b).origins.find? (fun o => o.node == k) with
+  | some o =>
+    have e : g.addOriginSS b k [b] = { g with bindings := g.bindings.set b { g.binding b with origins :=
+        ((g.binding b).origins.map fun o' =>
+          if o'.node == k then { o' with sourceSets := ssInsert g.addrOf [b] o'.sourceSets } else o') } } := by
+      unfold Graph.addOriginSS
+      rw [ofList_single]
+      simp only [hfo]
+    rw [e]
+    have hon : (o.node == k) = true := by
+      have := List.find?_some hfo
+      simpa using this
+    refine ⟨{ o with sourceSets := ssInsert g.addrOf [b] o.sourceSets }, ?_, mem_ssInsert_self _ _ _, ?_⟩
+    · simp only [Graph.findOrigin, Graph.binding, List.getD_eq_getElem?_getD, List.getElem?_set_self hb,
+        Option.getD_some]
+      rw [find_map_node _ _ _ (by intro o'; split <;> rfl)]
+      simp only [Graph.binding, List.getD_eq_getElem?_getD] at hfo
+      rw [hfo]
+      have hk' : o.node = k := by simpa using hon
+      simp [hk']
+    · have hreg := hwf.registered b k hb (by simp [Graph.findOrigin, hfo])
+      simpa [Graph.node] using hreg
+  | none =>
+    have e : g.addOriginSS b k [b] = { g with
+        bindings := g.bindings.set b { g.binding b with origins := (g.binding b).origins ++ [{ node := k, sourceSets := [[b]] }] },
+        nodes := g.nodes.set k { g.node k with bindings := (g.node k).bindings ++ [b] } } := by
+      unfold Graph.addOriginSS
+      rw [ofList_single]
+      simp only [hfo]
+    rw [e]
+    refine ⟨{ node := k, sourceSets := [[b]] }, ?_, by simp, ?_⟩
+    · simp only [Graph.findOrigin, Graph.binding, List.getD_eq_getElem?_getD, List.getElem?_set_self hb,
+        Option.getD_some, List.find?_append]
+      simp only [Graph.binding, List.getD_eq_getElem?_getD] at hfo
+      rw [hfo]
+      simp
+    · simp [Graph.node, List.getElem?_set_self hk]
+
+/-- the operation itself: `Binding::AddOrigin(k, {b})` on `b` makes `b` visible at `k`, in every well-formed graph -/
+theorem addOrigin_self_visible (g : Graph) (hwf : g.WF) (b : BId) (k : NodeId) (hb : b < g.bindings.length)
+    (hk : k < g.nodes.length) : Expl (g.addOriginSS b k [b]) k [b] := by
+  obtain ⟨ob, h1, h2, h3⟩ := addOriginSS_self g hwf b k hb hk
+  exact rebound_visible_here _ b k ob h3 h1 h2
+
 end PytypeModel.Typegraph
